@@ -247,29 +247,31 @@ fn pop_call_info_for_line(
     let forin_state = get_core_sub_state_for_command(state, FORIN_STATE_KEY.to_string());
     let call_info_stack = get_list(CALL_STACK_STATE_KEY.to_string(), forin_state);
 
-    match call_info_stack.pop() {
-        Some(state_value) => match state_value {
-            StateValue::SubState(mut call_info_state) => {
+    // with `recursive`, entries of loops that were left early (by a jump or a return) are dropped on the way; after a
+    // long run there may be very many of them, so this is a loop and not a recursion
+    loop {
+        match call_info_stack.pop() {
+            Some(StateValue::SubState(mut call_info_state)) => {
                 match deserialize_call_info(&mut call_info_state) {
                     Some(call_info) => {
                         if (call_info.meta_info.start == line || call_info.meta_info.end == line)
                             && call_info.line_context_name == line_context_name
                             && call_info.call_depth == call_depth
                         {
-                            Some(call_info)
-                        } else if recursive {
-                            pop_call_info_for_line(line, state, recursive)
-                        } else {
-                            store_call_info(&call_info, state);
-                            None
+                            return Some(call_info);
+                        } else if !recursive {
+                            let mut call_info_state = HashMap::new();
+                            serialize_call_info(&call_info, &mut call_info_state);
+                            call_info_stack.push(StateValue::SubState(call_info_state));
+                            return None;
                         }
                     }
-                    None => None,
+                    None => return None,
                 }
             }
-            _ => pop_call_info_for_line(line, state, recursive),
-        },
-        None => None,
+            Some(_) => (),
+            None => return None,
+        }
     }
 }
 
